@@ -244,6 +244,29 @@ def oracle(sc):
             acc += g.acc_stats(b)
         return gen.stats_impl(acc)
 
+    # adding statistics of another shape is refused - also when the other operand is empty (a fresh container, the statistics of a
+    # zero-row block): `+` and `+=`, with the shape differing in the number of Gaussians or of features
+    def refusal():
+        from bob.learn.em import GMMStats
+
+        C_, D_ = len(w), x.shape[1]
+        out = []
+        for other in (GMMStats(C_ + 1, D_), GMMStats(C_, D_ + 1), gen.mk_gmm(np.full(C_ + 1, 1 / (C_ + 1)), np.zeros((C_ + 1, D_)), np.ones((C_ + 1, D_))).acc_stats(x[:0])):
+            for iadd in (False, True):
+                left = g.acc_stats(blocks[0])
+                try:
+                    if iadd:
+                        left += other
+                    else:
+                        left = left + other
+                    out.append(f"{'+=' if iadd else '+'} of ({other.n_gaussians}, {other.n_features}) empty statistics to ({C_}, {D_}) ones was not refused")
+                except ValueError:
+                    pass
+        return out
+
+    rf = core.impl(refusal)
+    if isinstance(rf, core.ImplError) or rf:
+        return {"sig": "mismatching-shapes-not-refused", "what": repr(rf) if isinstance(rf, core.ImplError) else "; ".join(rf)}
     f = core.impl(from_fresh)
     if isinstance(f, core.ImplError) or not gen.stats_close(f, whole, 1e-9, 1e-9):
         return {"sig": "iadd-into-empty-container-differs", "what": f"+= of the blocks {sc['sizes']} into a fresh GMMStats: {f!r} vs whole {whole}"}
